@@ -163,7 +163,14 @@ func runSolver(sv solverSpec, file string, secs int) (status, output string, ela
 	_ = cmd.Run()
 	elapsed = time.Since(t0).Seconds()
 	output = out.String()
-	first := strings.TrimSpace(strings.SplitN(output, "\n", 2)[0])
+	first := ""
+	for _, l := range strings.Split(output, "\n") {
+		// skip solver warnings (z3 prints them before the answer)
+		if l = strings.TrimSpace(l); l != "" && !strings.HasPrefix(l, "WARNING") {
+			first = l
+			break
+		}
+	}
 	switch first {
 	case "unsat", "sat":
 		return first, output, elapsed
